@@ -97,7 +97,13 @@ var idempotentCallees = map[string]string{
 // externalPure: external functions without effects on their arguments.
 func externalPure(fn *ssa.Function) bool {
 	if fn.Pkg == nil {
-		// methods of instantiated generics etc.
+		// instances of generic library functions that only read their arguments
+		if o := fn.Origin(); o != nil && o.Pkg != nil && o.Pkg.Pkg.Path() == "slices" {
+			switch o.Name() {
+			case "BinarySearch", "BinarySearchFunc", "Contains", "ContainsFunc", "Index", "IndexFunc", "Equal", "Max", "Min":
+				return true
+			}
+		}
 		return false
 	}
 	switch fn.Pkg.Pkg.Path() {
